@@ -96,6 +96,9 @@ pub(crate) fn verif_c14_new() -> routing_table::verif_c14::TableBox {
 #[path = "../../../verif/c16.rs"]
 pub(crate) mod verif_c16;
 
+#[cfg(litep2p_verif)]
+pub(crate) use query::verif_c15;
+
 mod schema {
     pub(super) mod kademlia {
         include!(concat!(env!("OUT_DIR"), "/kademlia.rs"));
